@@ -255,7 +255,8 @@ class C01(Prop):
                     f = N(o, f, ivl=iv) if iv is not None else N(o, f)
                     if rng.random() < 0.1:
                         f = N(rng.choice(['and', 'or']), f, py)
-                self.check(ctx, {'formula': f, 'data': dict((k, lang.gen_values(rng, rng.choice([30, 60]), 'small'))
+                nd = rng.choice([30, 60])
+                self.check(ctx, {'formula': f, 'data': dict((k, lang.gen_values(rng, nd, 'small'))
                                                             for k in lang.variables(f)), 'kind': 'dt'})
                 ctx.count('class:deep-chains')
         for n in ((1100,) if ctx.tier == 'quick' else (1100, 2100)):
